@@ -537,8 +537,25 @@ class SymReal:
     def __float__(s):
         raise HarnessError('float() of a symbolic real reached unstubbed code: %r' % s.r)
 
+    _INT_RANGE = 110
+
+    def _floor_fork(s):
+        """integer k with k <= s < k+1, decided by forks (|k| <= _INT_RANGE)."""
+        for k in range(0, SymReal._INT_RANGE + 1):
+            for kk in ((k, -k - 1) if True else ()):
+                lo = s.r - RatFn.const(kk)
+                hi = s.r - RatFn.const(kk + 1)
+                if ENG.branch(z3.And(lo.z3_cmp('>='), hi.z3_cmp('<'))):
+                    return kk
+        raise HarnessError('int()/round() of a symbolic real outside [-%d, %d]: %r' % (SymReal._INT_RANGE, SymReal._INT_RANGE, s.r))
+
     def __int__(s):
-        return int(s.const_or_raise())
+        if s.c is not None:
+            return int(s.c)
+        k = s._floor_fork()
+        if k < 0 and not ENG.branch((s.r - RatFn.const(k)).z3_cmp('==')):
+            return k + 1          # truncation towards zero
+        return k
     __trunc__ = __int__
 
     def __index__(s):
@@ -548,10 +565,18 @@ class SymReal:
         return int(c)
 
     def __round__(s, n=None):
-        c = s.const_or_raise()
-        if n is None:
-            return round(c)
-        return SymReal(round(c, n))
+        if s.c is not None:
+            if n is None:
+                return round(s.c)
+            return SymReal(round(s.c, n))
+        if n is not None:
+            raise HarnessError('round(x, n) of a symbolic real')
+        half = RatFn.const(Fraction(1, 2))
+        k = SymReal(s.r + half)._floor_fork()          # k <= s + 1/2 < k + 1
+        # exact tie s + 1/2 == k: round half to even
+        if ENG.branch((s.r + half - RatFn.const(k)).z3_cmp('==')):
+            return k if k % 2 == 0 else k - 1
+        return k
 
     def __repr__(s):
         return 'Sym(%s)' % (s.c if s.c is not None else repr(s.r))
@@ -579,6 +604,30 @@ class AnglePi:
 
     def __truediv__(self, o):
         return AnglePi(self.q / fraction_of(o))
+
+    def __neg__(self):
+        return AnglePi(-self.q)
+
+    def __pos__(self):
+        return self
+
+    def __add__(self, o):
+        if isinstance(o, AnglePi):
+            return AnglePi(self.q + o.q)
+        if o == 0:
+            return self
+        raise HarnessError('angle arithmetic with a non-angle: %r + %r' % (self, o))
+    __radd__ = __add__
+
+    def __sub__(self, o):
+        if isinstance(o, AnglePi):
+            return AnglePi(self.q - o.q)
+        if o == 0:
+            return self
+        raise HarnessError('angle arithmetic with a non-angle: %r - %r' % (self, o))
+
+    def __rsub__(self, o):
+        return (-self).__add__(o)
 
     def __repr__(self):
         return 'AnglePi(%s)' % self.q
@@ -893,9 +942,15 @@ def check_sat(constraints, timeout_ms=20000, tactic=None):
     return 'unknown', s.reason_unknown()
 
 
+class _Env(dict):
+    """variables the solver never saw are unconstrained: any value does, take 0"""
+    def __missing__(self, k):
+        return Fraction(0)
+
+
 def model_env(model):
     """var name -> Fraction for every variable ratfn knows (algebraic values approximated)."""
-    env = {}
+    env = _Env()
     for name, zv in list(ratfn._Z3VARS.items()):
         v = model.eval(zv, model_completion=True)
         v = z3.simplify(v)
